@@ -141,7 +141,7 @@ prop('C08',
      'DESIGN.md 3.7, 4 C08')
 
 prop('C10',
-     [MT.mt1, MT.mt2, MT.mt5, R2.mt6, MI.ex2, MI.lc1, PS.ps3, T.mt4, PD.pd1],
+     [MT.mt1, MT.mt2, MT.mt5, R2.mt6, R2.mt7, R2.mt8, MI.ex2, MI.lc1, PS.ps3, T.mt4, PD.pd1],
      'rotation state: an argument is expanded once (EX2: formulas inside handler arguments '
      'consume one placeholder), collections are per language and looked up at the time of use '
      '(LC1), punctuation entries are single characters (MT4), generated tokens pinned (PD1)',
@@ -157,7 +157,7 @@ prop('C10',
      'DESIGN.md 3.8 (MT1-MT4), 4 C10')
 
 prop('C11',
-     [MT.mt1, MT.mt2, MT.mt3, MT.mt5, R2.mt6, T.mt4, MI.lc1, PS.ps3, PD.pd1],
+     [MT.mt1, MT.mt2, MT.mt3, MT.mt5, R2.mt6, R2.mt7, R2.mt8, T.mt4, MI.lc1, PS.ps3, PD.pd1],
      'the decision table of replace_section equals the documented scheme incl. rotation points, '
      'operator words and punctuation (MT1); section flag / next-replacement threading and the '
      'final punctuation of simple / removed equations (MT2); all catalogue equation '
@@ -222,7 +222,7 @@ prop('C15',
      'DESIGN.md 3.4, 3.2 (AB2), 4 C15')
 
 prop('C16',
-     [TH.th1, TH.th2, R2.th3, R2.cm2, MO.ln1],
+     [TH.th1, TH.th2, R2.th3, R2.th4, R2.cm2, MO.ln1],
      'escaping exactly once for all sources the property names, by a three-valued taint '
      '(raw / escaped-or-markup / mixed) through concatenations, helper functions, re.sub '
      'callbacks and result tuples; protect_html checked as a table (TH1); each match '
